@@ -78,6 +78,54 @@ def lower (c : UInt8) : UInt8 := if 65 ≤ c && c ≤ 90 then c + 32 else c
 def lowerB (b : Bytes) : Bytes := b.map lower
 def eqFold (a b : Bytes) : Bool := lowerB a == lowerB b
 
+/-! ### decimal numbers as Go's `strconv.ParseFloat` reads them (kept exact, never IEEE) -/
+
+/-- value = mant / 10^scale -/
+structure Dec where
+  mant : Int
+  scale : Nat
+  deriving Repr
+
+def splitAt46 : Bytes → Bytes × Option Bytes
+  | [] => ([], none)
+  | 46 :: r => ([], some r)
+  | c :: r => let (a, b) := splitAt46 r; (c :: a, b)
+
+def splitAtE : Bytes → Bytes × Option Bytes
+  | [] => ([], none)
+  | c :: r => if c == 101 || c == 69 then ([], some r) else let (a, b) := splitAtE r; (c :: a, b)
+
+/-- decimal `[+-]ddd[.ddd][e[+-]dd]` as Go's `ParseFloat` reads it (hex floats, inf and nan are
+    not produced by the generators and are not modelled) -/
+def parseDecimal (b : Bytes) : Option Dec :=
+  let (neg, body) := match b with
+    | 45 :: r => (true, r)
+    | 43 :: r => (false, r)
+    | r => (false, r)
+  let (mantPart, expPart) := splitAtE body
+  let (ip, fp) := splitAt46 mantPart
+  let fp' := fp.getD []
+  if (ip.isEmpty && fp'.isEmpty) || !ip.all isDigit || !fp'.all isDigit then none
+  else
+    let m : Int := digitsVal (ip ++ fp') 0
+    let m := if neg then -m else m
+    match expPart with
+    | none => some { mant := m, scale := fp'.length }
+    | some e =>
+      match parseDec e with
+      | none => none
+      | some x =>
+        if x.natAbs > 400 then none
+        else
+          let sc : Int := (fp'.length : Int) - x
+          if sc ≥ 0 then some { mant := m, scale := sc.toNat }
+          else some { mant := m * (10 : Int) ^ (-sc).toNat, scale := 0 }
+
+/-- the spellings of infinity and NaN `ParseFloat` accepts -/
+def isInfNan (b : Bytes) : Bool :=
+  let u := lowerB (match b with | 43 :: r => r | 45 :: r => r | r => r)
+  u == sb "inf" || u == sb "infinity" || u == sb "nan"
+
 /-! ### Go's `[]rune(string)`: UTF-8 decoding where every invalid byte becomes U+FFFD -/
 
 def inR (b lo hi : UInt8) : Bool := lo ≤ b && b ≤ hi
